@@ -32,7 +32,9 @@ type C19DumpCase struct {
 }
 
 var c19First = []string{"\x18", "\x0f", "\x1d", "\x18\x18"}
-var c19Keys = []string{"a", "Z", "1", "\"", "'", "\\", "%", ":", " ", "-", "#", "$", "\x01", "\x1b", "\x7f", "\x1c", "\t", "\r", "é", "ÿ", "日", " ", "%s", "%d", "\\e", "C-"}
+var c19Keys = []string{"a", "Z", "1", "\"", "'", "\\", "%", ":", " ", "-", "#", "$", "\x01", "\x1b", "\x7f", "\x1c", "\t", "\r", "é", "ÿ", "日", " ", "%s", "%d", "\\e", "C-",
+	// Latin-1 runes that are the meta form of a character special to the notation (" \\ ' : % #)
+	"¢", "Ü", "§", "º", "¥", "£"}
 var c19Funcs = []string{"forward-char", "kill-line", "self-insert", "beginning-of-line", "yank", "undo", "accept-line", "vi-movement-mode"}
 
 func genC19Dump(t *rapid.T) *C19DumpCase {
